@@ -290,3 +290,22 @@ func init() {
 		return Sc{Select(Select(vh, itv.T, SArr(ks, SBool)), key, SBool)}, tBool
 	}
 }
+
+func init() {
+	// istype(x, T): the dynamic type of the interface value x is T
+	specBuiltins["istype"] = func(e *SpecEnv, n *ast.CallExpr) (SV, types.Type) {
+		if len(n.Args) != 2 {
+			e.fail("istype(x, T) needs two arguments")
+		}
+		v, _ := e.eval(n.Args[0])
+		iv, ok := v.(If)
+		if !ok {
+			e.fail("istype(): not an interface value")
+		}
+		t := e.c.eng.specTypeExpr(e.pkg, n.Args[1])
+		if t == nil {
+			e.fail("istype(): unknown type")
+		}
+		return Sc{Eq(iv.Tag, e.c.typeTag(t))}, tBool
+	}
+}
